@@ -165,18 +165,31 @@ def run(ctx):
         old = os.getcwd()
         fd = os.open(T.root, os.O_RDONLY)
         try:
-            for pat in ('**/*.txt', '*/sub/*', 'vis/*', '**'):
-                for path in ('real/x.txt', 'vis/x.txt', 'real/sub/y.txt', 'vis/sub/y.txt', 'f', 'lf', '.link/x.txt'):
+            for pat in ('**/*.txt', '*/sub/*', 'vis/*', '**', '*/', 'vis/', '**/', 'lf/', '*', 'real/*/', 'v*'):
+                for path in ('real/x.txt', 'vis/x.txt', 'real/sub/y.txt', 'vis/sub/y.txt', 'f', 'lf', '.link/x.txt', 'vis', 'real', 'dang', 'real/sub', 'vis/sub'):
+                    for RR in (R, R | Gm.NODIR, R | Gm.FOLLOW):
+                        n += 1
+                        a = Gm.globmatch(path, pat, flags=RR, root_dir=T.root)
+                        os.chdir(T.root)
+                        b = Gm.globmatch(path, pat, flags=RR)
+                        os.chdir(old)
+                        c_ = Gm.globmatch(path, pat, flags=RR, dir_fd=fd)
+                        if not (a == b == c_):
+                            ctx.counterexample('REALPATH globmatch(%r, %r, %s) depends on how the root is given: root_dir=%r cwd=%r dir_fd=%r' % (
+                                path, pat, corr.flag_names(RR), a, b, c_), {'pattern': pat, 'path': path, 'flags': corr.flag_names(RR)})
+            # ... and glob itself, addressed through dir_fd, agrees with REALPATH globmatch through dir_fd
+            for pat in ('*/', '*', '**/', 'v*/', '*/*'):
+                for RR in (Gm.GLOBSTAR, Gm.GLOBSTAR | Gm.NODIR, Gm.GLOBSTAR | Gm.MARK):
                     n += 1
-                    a = Gm.globmatch(path, pat, flags=R, root_dir=T.root)
-                    os.chdir(T.root)
-                    b = Gm.globmatch(path, pat, flags=R)
-                    os.chdir(old)
-                    c_ = Gm.globmatch(path, pat, flags=R, dir_fd=fd)
-                    d_ = Gm.globmatch(path, pat, flags=R, root_dir=T.root.encode()) if False else a
-                    if not (a == b == c_):
-                        ctx.counterexample('REALPATH globmatch(%r, %r) depends on how the root is given: root_dir=%r cwd=%r dir_fd=%r' % (path, pat, a, b, c_),
-                                           {'pattern': pat, 'path': path})
+                    res_fd = sorted(Gm.glob(pat, flags=RR, dir_fd=fd))
+                    res_rd = sorted(Gm.glob(pat, flags=RR, root_dir=T.root))
+                    if res_fd != res_rd:
+                        ctx.counterexample('glob(%r, %s) differs between dir_fd and root_dir' % (pat, corr.flag_names(RR)), {'pattern': pat, 'dir_fd': res_fd[:8], 'root_dir': res_rd[:8]})
+                    for x in res_fd:
+                        if not Gm.globmatch(x, pat, flags=RR | Gm.REALPATH, dir_fd=fd):
+                            ctx.counterexample('glob(%r, %s, dir_fd) returns %r which REALPATH globmatch(dir_fd) rejects' % (pat, corr.flag_names(RR), x),
+                                               {'pattern': pat, 'path': x, 'flags': corr.flag_names(RR)})
+                            break
         finally:
             os.chdir(old)
             os.close(fd)
